@@ -5,7 +5,7 @@
     operation script (no bound on length); `Fuel` (loop fuel exhausted) and the Option/array
     panics are excluded as observations by the specifications. *)
 From Coq Require Import ZArith List String Bool Permutation.
-From V.C27 Require Import ModelHeap Spec ProofsCells ProofsStack ProofsPQ.
+From V.C27 Require Import ModelHeap ModelIter Spec ProofsCells ProofsStack ProofsPQ ProofsIter.
 Import ListNotations.
 Open Scope Z_scope.
 
@@ -104,6 +104,22 @@ Proof.
 Qed.
 Print Assumptions capacity_panics.
 
+(* iteration (`for x in s`): a Stack yields its elements top first; a PriorityQueue yields all its
+   entries, each exactly once, in non-decreasing priority order; the loop ends (no Fuel), and the
+   final discard_empty does not panic *)
+Theorem iteration_order : forall (T : Type) max_size,
+  (forall (s : @stack T) l, stack_rep max_size s l ->
+      stack_iter (S (List.length l)) (stack_iter_self s) = Ok l) /\
+  (forall (s : @pq T), pq_inv max_size s ->
+      exists l, pq_iter (S (Z.to_nat (snd s))) (pq_iter_self s) = Ok l /\ sorted_prio l /\
+                Permutation l (contents s)).
+Proof.
+  intros T m. split.
+  - intros s l R. apply (stack_iter_spec _ m s l R). apply Nat.lt_succ_diag_r.
+  - intros s I. apply (pq_iter_spec _ m s I). apply Nat.lt_succ_diag_r.
+Qed.
+Print Assumptions iteration_order.
+
 (** The hypotheses are satisfiable on non-trivial instances, and the model computes: *)
 Example ex_stack :
   fst (stack_run 2 [SPush 5; SPush 6; SPeek; SLen; SPush 7] (empty_stack 2))
@@ -124,3 +140,10 @@ Proof.
   exists s. split; [eapply (heap_inv Z 5); [vm_compute; discriminate|exact E]|].
   vm_compute in E. inversion E. subst. vm_compute. split; [reflexivity|split; reflexivity].
 Qed.
+
+Example ex_pq_iter :
+  match snd (pq_run 5 [QPush 10 3; QPush 11 1; QPush 12 2; QPush 13 1; QPush 14 0] (empty_pq 5)) with
+  | Some s => pq_iter 6 s = Ok [(0, 14); (1, 13); (1, 11); (2, 12); (3, 10)]
+  | None => False
+  end.
+Proof. vm_compute. reflexivity. Qed.
